@@ -44,7 +44,9 @@ func VH_deployment_checker() {
 	en := chaincfg.NewMedianTimeDeploymentEnder(endT)
 	st.SynchronizeClock(b)
 	en.SynchronizeClock(b)
-	d := &chaincfg.ConsensusDeployment{BitNumber: uint8(vNondetLen("bit", 28)), MinActivationHeight: vNondetU32("minHeight"),
+	bit := vNondetU8("bit")
+	vAssume(bit <= 28)
+	d := &chaincfg.ConsensusDeployment{BitNumber: bit, MinActivationHeight: vNondetU32("minHeight"),
 		CustomActivationThreshold: vNondetU32("customThreshold"), AlwaysActiveHeight: vNondetU32("alwaysActive"),
 		DeploymentStarter: st, DeploymentEnder: en}
 	c := deploymentChecker{deployment: d, chain: b}
